@@ -185,6 +185,10 @@ class Project:
             if Inliner(self.modules, log=self.inline_log).run():
                 for m in self.modules.values():
                     m.tree = normalize(m.tree)
+            # a private attribute renamed *and* partly moved into a new helper has its reference usage signature only once the helper is expanded
+            if undo_attr_renames(self.modules, log=self.inline_log):
+                for m in self.modules.values():
+                    m.tree = normalize(m.tree)
             from .inline import lower_local_raises, thread_sentinel_tests
             if lower_local_raises(self.modules, log=self.inline_log) | thread_sentinel_tests(self.modules, log=self.inline_log):
                 for m in self.modules.values():
